@@ -126,7 +126,7 @@ class Space:
             parts = []
             redecl = set((d.redeclares, d.name) for n in order for d in ents[n].derived if d.redeclares)
             for n in sorted(order):
-                vals = ['*' if (n, a.name) in redecl else self.lits.alts(a.type, short=True)[0] for a in ents[n].attrs]
+                vals = ['*' if (n, a.name) in redecl else self.lits.alts(a.type, short=True)[0] for a in ents[n].attrs if not a.redeclares]
                 parts.append('%s(%s)' % (n.upper(), ','.join(vals)))
             yield {'ent': ename, 'site': 'complex', 'detail': 'external-mapping', 'text': self.file(['#10=(%s);' % ''.join(parts)])}
             if full:
@@ -155,7 +155,7 @@ def attr_kind(schema, ent_upper, idx, complex_part=False):
     if e not in ents:
         return '?'
     if complex_part:
-        at = ents[e].attrs
+        at = [x for x in ents[e].attrs if not x.redeclares]
         return typekey(at[idx].type) if idx < len(at) else '?'
     pa = schema.p21_attrs(e)
     return typekey(pa[idx][1].type) if idx < len(pa) else '?'
@@ -264,7 +264,7 @@ def compare0(schema, case, res):
         l2 = p21ref.mask_timestamp(o2).split(b'\n')
         dl = next(((a, b) for a, b in zip(l1, l2) if a != b), (b'', b''))
         m = re.match(rb'#\d+\s*=\s*([A-Z0-9_]+)', dl[0])
-        kw = m.group(1).decode().lower() if m else ('header' if b'FILE_' in dl[0] else 'length')
+        kw = m.group(1).decode().lower() if m else ('header' if b'FILE_' in dl[0] else ('complex:' + case['ent'] if site == 'complex' else 'length'))
         out.append(('second-cycle/%s' % kw, 'second write differs: %r -> %r' % (dl[0][:100], dl[1][:100])))
     if res.get('sev2', 3) < 2 and not out:
         out.append(('reread-error/%s' % where, 're-reading the written file gives severity %d' % res['sev2']))
